@@ -279,6 +279,18 @@ def install(ctx):
                 raise Unsupported('find of a non-ASCII / symbolic char')
             found, idx = s.find_byte(c)
             return opt_sym(found, S(idx, 'usize'))
+        pv = deref_all(pat)
+        if isinstance(pv, Str) and pv.concrete() is not None:
+            pat_b = pv.concrete()
+            found = z3.BoolVal(False)
+            idx = z3.IntVal(0)
+            for q in range(len(s.b) - len(pat_b), -1, -1):
+                hit = z3.And([s.lo <= q, s.hi >= q + len(pat_b)] + [s.bt(q + j) == pat_b[j] for j in range(len(pat_b))])
+                idx = z3.If(hit, q - s.lo, idx)
+                found = z3.Or(hit, found)
+            if len(pat_b) == 0:
+                return some(mk_int(0, 'usize'))
+            return opt_sym(z3.simplify(found), S(z3.simplify(idx), 'usize'))
         raise Unsupported('str::find pattern %r' % (pat,))
 
     @M.reg('str::trim_matches')
